@@ -1382,7 +1382,7 @@ pub fn g_m(fmt: Fmt, r: &Recipe) -> Case {
     let (w, q) = if r.sel[2] < 0xA000 && !small.is_empty() { *small[(r.b % small.len() as u64) as usize] } else { (w, q) };
     let mut digits: Vec<u8> = w.to_string().into_bytes();
     let mut q = q as i64;
-    let variant = match r.k[0] % 4 {
+    let variant = match r.k[0] % 5 {
         0 | 1 => "w*10^q",
         2 => {
             // 20-digit truncation variant: w followed by extra digits
@@ -1391,6 +1391,15 @@ pub fn g_m(fmt: Fmt, r: &Recipe) -> Case {
             digits.extend(extra.iter().map(|d| d + b'0'));
             q -= n as i64;
             "w then digits"
+        }
+        3 if w >= 1_000_000_000_000_000_001 && w < 10_000_000_000_000_000_000 => {
+            // the prefix is w - 1, so that it is the *second* pass (prefix + 1) that meets lo == MAX
+            digits = (w - 1).to_string().into_bytes();
+            let n = 1 + (r.k[1] % 30) as usize;
+            let extra = stretch_digits(r, n, 0x6e);
+            digits.extend(extra.iter().map(|d| d + b'0'));
+            q -= n as i64;
+            "w-1 then digits"
         }
         _ => "w split",
     };
